@@ -1,7 +1,7 @@
 (* C07 — retained store keeps the last non-empty retained publish; sent on subscribe. *)
 From Coq Require Import List NArith Bool.
 Import ListNotations.
-From VMQ Require Import model.Trie model.Match proofs.TrieProofs.
+From VMQ Require Import model.Trie model.Match proofs.TrieProofs proofs.TrieHistory.
 Open Scope N_scope.
 
 (* at most one retained message per topic node, by construction of the tree *)
@@ -22,12 +22,16 @@ Proof.
 Qed.
 Print Assumptions C07_retain_keeps_root_subs.
 
-(* The full statements — the filter-driven retained walk returns exactly the unexpired retained
-   messages whose topics match the filter; retain operations change no subscription anywhere in the
-   tree — are NOT yet proved (partial).  They are checked on every generated history by the
-   correspondence run (model vs both providers vs the specification spec_retained).  Kept visible: *)
-Definition C07_retain_preserves_all_subs_full : Prop :=
-  forall p m e n, wf n -> forall q x, In (q, x) (tsubs (retain p m e n)) <-> In (q, x) (tsubs n).
+(* ... and nowhere else in the tree either: setting or clearing a retained message never adds, removes or
+   alters any subscription, at any depth, and keeps the tree well-formed *)
+Theorem C07_retain_preserves_all_subs : forall p m e n, wf n ->
+  wf (retain p m e n) /\ forall q x, In (q, x) (tsubs (retain p m e n)) <-> In (q, x) (tsubs n).
+Proof. exact retain_spec. Qed.
+Print Assumptions C07_retain_preserves_all_subs.
+
+(* The remaining full statement - the filter-driven retained walk returns exactly the unexpired retained
+   messages whose topics match the filter - is NOT proved (partial); it is checked on every generated
+   history by the correspondence run (model vs both providers vs the specification spec_retained). *)
 
 Example C07_nonvacuous :
   let h := [ORetain [97;47;98] (mkMsg 1 1 false) false; ORetain [36;115;47;120] (mkMsg 2 1 false) false;
